@@ -29,6 +29,7 @@ def run(ctx):
                 "TLC; non-trivial = non-zero angle")
     thorough = ctx.tier == "thorough"
     core.law_runs(ctx, "Law_Xform", ["Law_Xform_P", "Law_Xform_Q"])
+    core.law_runs(ctx, "Law_XformS", ["Law_XformS"])      # the same laws as polynomial identities modulo c^2+s^2=1, |n|^2=1
     n = 300 if thorough else 20
     # symbolic lane: matrix entries are free symbols and the angle is a symbol whose (cos, sin) are paired symbols, so each
     # record (rotation_x/y/z, rotated_*, rotate_* on every matrix type and layout, From<Quaternion>, the axis-aligned
